@@ -2,6 +2,7 @@ package main
 
 import (
 	"context"
+	"crypto"
 	"errors"
 	"fmt"
 	"io"
@@ -156,7 +157,12 @@ func runTar(ctx context.Context, opt tarOptions, args []string) error {
 		return err
 	}
 
-	index.Index.FeatureFlags |= desync.TarFeatureFlags
+	// The archive's feature flags, except for the digest which depends on --digest
+	flags := desync.TarFeatureFlags
+	if desync.Digest.Algorithm() != crypto.SHA512_256 {
+		flags &^= desync.CaFormatSHA512256
+	}
+	index.Index.FeatureFlags |= flags
 
 	// See if Tar encountered an error along the way
 	if tarErr != nil {
